@@ -112,8 +112,20 @@ pub fn data_file(rng: &mut Rng) -> DataFile {
 
 pub fn deletion_file(rng: &mut Rng, max_deleted: Option<usize>) -> DeletionFile {
     let n = match max_deleted {
-        Some(m) => 1 + rng.usize(m.max(1)),
-        None => 1 + (u64v(rng) >> 1) as usize,
+        Some(m) => {
+            if rng.chance(1, 3) {
+                1
+            } else {
+                1 + rng.usize(m.max(1))
+            }
+        }
+        None => {
+            if rng.chance(1, 3) {
+                1
+            } else {
+                1 + (u64v(rng) >> 1) as usize
+            }
+        }
     };
     DeletionFile {
         read_version: u64v(rng),
@@ -146,7 +158,13 @@ fn version_meta(rng: &mut Rng) -> RowDatasetVersionMeta {
 
 /// well-formed fragment (row counts stay small: `num_rows` subtracts and the manifest sums them)
 pub fn fragment(rng: &mut Rng, need_row_ids: bool) -> Fragment {
-    let physical = if rng.chance(1, 5) { None } else { Some(1 + rng.usize(1 << 20)) };
+    // boundary values first: the decoders special-case 0
+    let physical = match rng.below(10) {
+        0 | 1 => None,
+        2 | 3 => Some(1),
+        4 => Some(2),
+        _ => Some(1 + rng.usize(1 << 20)),
+    };
     Fragment {
         id: u64v(rng),
         files: vecof(rng, 3, data_file),
@@ -297,7 +315,9 @@ fn break_manifest(rng: &mut Rng, m: &mut Manifest) {
         1 => m.transaction_file = Some(String::new()),
         2 => {
             // key differs from BasePath::id
+            // (no other entry with the same id: which of two equal ids wins depends on HashMap order)
             let bp = base_path(rng, 7);
+            m.base_paths.retain(|_, b| b.id != 7);
             m.base_paths.insert(8, bp);
         }
         3 => {
@@ -583,7 +603,7 @@ fn pb_deletion_file(rng: &mut Rng) -> pb::DeletionFile {
         file_type: *rng.pick(&[0, 1, 0, 1, 2, -1, 7]),
         read_version: u64v(rng),
         id: u64v(rng),
-        num_deleted_rows: if rng.chance(1, 3) { 0 } else { rng.below(1000) },
+        num_deleted_rows: *rng.pick(&[0u64, 0, 1, 1, 2, 999]),
         base_id: opt(rng, u32v),
     }
 }
@@ -591,7 +611,7 @@ fn pb_deletion_file(rng: &mut Rng) -> pb::DeletionFile {
 fn pb_fragment(rng: &mut Rng, malformed: bool) -> pb::DataFragment {
     let mut p = pb::DataFragment::from(&fragment(rng, false));
     if rng.chance(1, 3) {
-        p.physical_rows = 0;
+        p.physical_rows = rng.below(3);
     }
     if rng.chance(1, 3) {
         let mut d = pb_deletion_file(rng);
